@@ -75,6 +75,42 @@ def expected_fill(x):
     return tot
 
 
+def periodic_bucket(ctx, res, rng, n):
+    """a `~ PERIOD` transaction with a single posting is balanced against the bucket like any other transaction: the
+    journal is accepted and every forecast transaction carries the bucket posting with the exact negation"""
+    for j in range(n):
+        style = rng.randrange(3)
+        bucket = 'Assets:Bucket'
+        s_ = rng.choice(list(X.COMMS))
+        a = X.Amt.rand(rng, s_)
+        period = rng.choice(['Monthly', 'Weekly', 'Every 2 weeks', 'Quarterly', 'Yearly'])
+        other = X.Amt.rand(rng, s_)
+        text = (X.bucket_directive(bucket, style) + '~ %s\n    Expenses:Rent    %s\n\n' % (period, a.text()) +
+                '2021/01/05 x0\n    Expenses:Food    %s\n' % other.text())
+        path = ctx.path('C02_periodic_%d.dat' % (j % 3))
+        open(path, 'w').write(text)
+        st, out, err = lib.run_ledger(['-f', path, 'reg', '--now', '2021/01/10', '--forecast', 'd<[2023/06/01]', '--format',
+                                       '%(payee)|%(account)|%(verif_rational(amount))\\n'])
+        res.evaluations += 1
+        res.count('periodic-bucket')
+        res.nontrivial.add('periodic:' + text)
+        rows = [l.split('|') for l in out.decode('utf-8', 'replace').split('\n') if l.count('|') == 2]
+        fore = [r for r in rows if r[0].startswith('Forecast')]
+        bad = None
+        if st != 0:
+            bad = 'rejected: ' + err.decode('utf-8', 'replace')[-200:]
+        elif not fore:
+            bad = 'no forecast transaction generated'
+        else:
+            rent = [X.canon_amount(r[2]) for r in fore if r[1] == 'Expenses:Rent']
+            buck = [X.canon_amount(r[2]) for r in fore if r[1] == bucket]
+            if len(rent) != len(buck) or any(c is None or c[1] != a.value for c in rent) or any(c is None or c[1] != -a.value or c[0] != a.sym for c in buck):
+                bad = 'forecast rows: %s' % fore[:4]
+        if bad:
+            res.violations.append(dict(key='periodic-single-posting-not-balanced-by-bucket', desc='a one-posting periodic transaction under a bucket directive: ' + bad,
+                                       case=dict(journal=text), observed=bad, required='accepted; each forecast transaction = the posting and %s %s on %s' % (-a.value, a.sym, bucket)))
+
+
 def run(ctx, n_override=None):
     rng = ctx.rng
     res = lib.Result()
@@ -164,6 +200,7 @@ def run(ctx, n_override=None):
                 if nrows != ncomm and all(v != 0 for v in exp.values()):
                     res.violations.append(dict(key='null-fill-row-count', desc='%d rows on the elided account for %d commodities' % (nrows, ncomm),
                                                case=dict(journal=text, xact=i), observed=str(nrows), required=str(ncomm)))
+    periodic_bucket(ctx, res, rng, max(6, n // 20))
     return res
 
 
